@@ -117,9 +117,6 @@ structure ChanRead where
   /-- LABELMAP segmentation: the read makes NO channel query (`channel_indices = None`, no temporary table, `data` unused); the
   stored label matrix is read as one channel and split into segments afterwards (`_get_pixels_by_seg_frame`, C02) -/
   labelmap : Bool := false
-  /-- the refusal of `bodyRefuses` is raised WHILE the rows of the frame query are being copied (overlapping segments, non-binary
-  fractions when combining) rather than by the validation of the options before the first row is fetched -/
-  midIteration : Bool := false
 
 /-- One segment-aware region read on an image whose connection holds the temporary-table state `st`: new state and result.
 Order as in `_iterate_indices_for_tiled_region`: uniqueness test and request normalisation (refusals that leave the state alone),
@@ -173,9 +170,10 @@ def historyStates {α} (z : α) (lut : List LutRow) (frames : List (Img α)) (ro
 /-! ## Table locks
 
 While a cursor of a SELECT that joins the temporary table is open, SQLite refuses `DROP TABLE` on it ("database table is locked").
-The frame query of a read is such a cursor; it is open after the read iff the body raised while its rows were being copied, the
-iterator does not close it on exit (`Gen.tiledRegionCursorClosedOnExit`, T4t) and the caller holds on to the exception (whose
-traceback keeps the generator alive). -/
+The frame query of a read is such a cursor: it is executed when the instruction generator is created (the first row is fetched at
+once), so it is still open after the read iff the body raised — at any point — while the query had at least one row, the iterator
+does not close it on exit (`Gen.tiledRegionCursorClosedOnExit`, T4t) and the caller holds on to the exception (whose traceback keeps
+the generator, hence the cursor, alive). -/
 
 /-- the connection: the temporary table and whether an abandoned frame query still locks it -/
 structure Conn where
@@ -218,8 +216,11 @@ def stepReadL {α} (z : α) (lut : List LutRow) (frames : List (Img α)) (rows c
           else stackedBody z lut frames th tw st1 (q.data.length : Int) q.nch r0 r1 c0 c1 cnt full allowMissing
         match res with
         | .error e =>
-          -- is the cursor of the frame query still open?  (an error of the modelled body itself arises while rows are copied)
-          let open_ := (q.midIteration || !q.bodyRefuses) && !closes
+          -- is the cursor of the frame query still open?  (it was executed before the body ran; a query without rows is finished)
+          let hasRows := match st1 with
+            | some t => !(joinRows ((lut.filter (selected r0 r1 c0 c1 th tw)).mergeSort lutLe) t).isEmpty
+            | none => false
+          let open_ := hasRows && !closes
           ((⟨if tempTableCleanupOnError then (runOpsL open_ tempTableCleanup q.data st1).1 else st1, open_ && kept⟩ : Conn), .error e)
         | .ok v =>
           match runOpsL false tempTableCleanup q.data st1 with
@@ -245,11 +246,11 @@ def historyStatesL {α} (z : α) (lut : List LutRow) (frames : List (Img α)) (r
 /-- the request `get_total_pixel_matrix(segment_numbers=segs, combine_segments=False)` makes: channel `k` of the output is
 segment `segs[k]` -/
 def stackedRequest (segs : List Int) (rs re cs ce : Option Int) (asIdx : Bool) : ChanRead :=
-  ⟨(segs.zipIdx).map (fun (p : Int × Nat) => ((p.2 : Int), p.1)), (segs.length : Int), rs, re, cs, ce, asIdx, false, false, false⟩
+  ⟨(segs.zipIdx).map (fun (p : Int × Nat) => ((p.2 : Int), p.1)), (segs.length : Int), rs, re, cs, ce, asIdx, false, false⟩
 
 /-- a read of a LABELMAP segmentation: no channel query -/
 def labelmapRequest (rs re cs ce : Option Int) (asIdx : Bool) : ChanRead :=
-  ⟨[], 1, rs, re, cs, ce, asIdx, false, true, false⟩
+  ⟨[], 1, rs, re, cs, ce, asIdx, false, true⟩
 
 /-- frames and frame table of `Segmentation(tile_pixel_array=True)` as a reader sees them (`tileThenRead` up to the read):
 tile offsets, which tiles are kept, the TILED_FULL / `omit_empty_frames` refusal, the tiling loop, explicit or implied table -/
